@@ -13,6 +13,11 @@ Decided (every path of verify, all inputs):
                64-bit borrow chain, the 32-bit byte-wise comparison over all 32 bytes against little-endian L)
   window       double_scalarmult_vartime: odd multiples A,3A,..,15A built as a_(2k+1) = a_2 + a_(2k-1);
                digits index ai[|d|/2] and BI[|d|/2] with add for d > 0 and sub for d < 0; BI[j] = (2j+1)B
+  scan-start   the digit scan starts at the LAST slide position (a carry digit can reach position 255)
+  bits-all     Scalar::bits() returns every one of the 256 bits in both backends (a canonical S can have bit 252 set)
+  s32-order    the 32-bit byte-wise S < L test is the big-endian order on all 2^256 inputs: 65 abstract cases (first
+               differing byte x order there, and S == L) each fold to a constant in the interval domain
+  signing      key derivation, clamp and signing-equation wiring (shared with C13); scalar32 reduce / muladd (sc32 rules)
 Not decided: that the double-scalar multiplication computes hA + sB; slide() digit arithmetic."""
 import re
 
@@ -22,7 +27,7 @@ from ..spec import curve
 from . import C13, C15
 
 EXPLANATION = __doc__
-TECHNIQUE = "branch-fact dominance of the accept path, canonical dataflow expressions, OR-fold and iterator-coverage rules, borrow-chain predicate vs. L in both backends"
+TECHNIQUE = "interval abstract interpretation over ssa terms with exact carry/remainder relations and trace partitioning on carries (inductive limb-bound invariants, overflow-assert discharge); branch-fact dominance of the accept path, canonical dataflow expressions, OR-fold and iterator-coverage rules, borrow-chain predicate vs. L in both backends"
 
 
 def check_verify(ctx, P):
